@@ -12,3 +12,5 @@ import XPathV.Theorems.C02
 #print axioms XPathV.Theorems.C02.C02_main_full
 #print axioms XPathV.Theorems.C02.C02_keeps_exactly_the_true_ones_full
 #print axioms XPathV.Theorems.C02.C02_built_predicate_truth
+#print axioms XPathV.Theorems.C02.C02_from_text
+#print axioms XPathV.Theorems.C02.compile_never_out_of_fuel
